@@ -57,6 +57,7 @@ def episodes(prop, tier, seed):
         out["peelers"] = (g.peelers(seed + 7, sizes=(800001,) if q else (800001, 1000000, 2000000, 20000001)), "verif")
         out["mwhc-shards"] = (g.mwhc_shards(seed + 9, sizes=(200000,) if q else (200000, 1000000, 3000000)), "verif")
         out["sharded"] = (g.sharded_logics(seed + 11, "func", sizes=(100000,) if q else (100000, 120000, 199999)), "verif")
+        out["wide-keys"] = (g.wide_int_keys(seed + 14, "func"), "verif")
         out["retry"] = (g.retry_recipes(seed + 12, "func", sizes=(200000,) if q else (200000, 400000), per_size=1 if q else 3), "verif")
         if not q:
             out["small-release"] = (g.small_n_functions(seed + 4, 300), "release")
@@ -72,6 +73,7 @@ def episodes(prop, tier, seed):
         out["regimes"] = (g.regime_filters(seed + 3, REGIME_Q if q else REGIME_T), "verif")
         out["peelers"] = (g.peelers(seed + 6, sizes=(800001,) if q else (800001, 1000000, 20000001)), "verif")
         out["sharded"] = (g.sharded_logics(seed + 11, "filter", sizes=(100000,) if q else (100000, 120000, 199999)), "verif")
+        out["wide-keys"] = (g.wide_int_keys(seed + 14, "filter"), "verif")
         out["retry"] = (g.retry_recipes(seed + 12, "filter", sizes=(200000,) if q else (200000, 400000), per_size=2 if q else 3), "verif")
         # a filter over a key source that fails must not come back as Ok over the keys read so far (len, members)
         out["line-faults"] = ([e for e in g.c17_line_faults(seed + 13, thin=q) if e["ops"][0]["kind"] == "filter"], "verif")
